@@ -178,7 +178,8 @@ func getParentFromKey(sp interface{}, key string) (string, string, interface{}, 
 	// unescape chars in key, e.g. "{}" from path params
 	pth, _ := url.PathUnescape(key[1:])
 
-	parent, entry := path.Dir(pth), path.Base(pth)
+	// the last token is returned unescaped: callers use it as a map key or an index
+	parent, entry := path.Dir(pth), jsonpointer.Unescape(path.Base(pth))
 	debugLog("getting schema holder at: %s, with entry: %s", parent, entry)
 
 	pptr, err := jsonpointer.New(parent)
